@@ -265,8 +265,8 @@ package oidc
 // ---------------------------------------------------------------------------------------------
 
 //@ guarded field memoryStore.sessions by addr(this.mu)
-// the process-wide discovery cache is shared by all checks and has no lock
-//@ frozen global wellKnownConfigs
+// the process-wide discovery cache is shared by all checks
+//@ guarded global wellKnownConfigs by wellKnownConfigsMu
 // the factory's stores are created at start-up (PreRun, before serving) and only read afterwards
 //@ frozen field sessionStoreFactory.redis
 //@ frozen field sessionStoreFactory.memory
